@@ -219,6 +219,28 @@ def r_laplace_rewrite(m): return _dist_rewrite('laplace')
 def r_exponential_rewrite(m): return _dist_rewrite('exponential')
 
 
+def r_categorical_implicit_last(m):
+    """the real parser on choices with an omitted last probability: k = 1..3 stated probabilities in several spellings"""
+    import sympy as sp, settings
+    from inputparser import Parser
+    old = settings.transform_categoricals
+    settings.transform_categoricals = False
+    try:
+        for k in (1, 2, 3):
+            for ptxt in ('1/8', '0.125', '(1/8)', 'p', 'p/2', '2*p'):
+                src = 'x = 0\nwhile true:\n    x = ' + ' '.join(f'{i} {{{ptxt}}}' for i in range(k)) + f' {k}\nend'
+                try: prog = Parser().parse_string(src)
+                except Exception as ex: continue
+                a = [b for b in prog.loop_body if str(b.variable) == 'x'][0]
+                got = sp.sympify(str(a.probabilities[-1]))
+                exp = 1 - k * sp.sympify(ptxt)
+                if sp.simplify(got - exp) != 0:
+                    return dict(observed=f'{src!r}: last probability {got}', expected=str(exp), violates=True, input=src)
+    finally:
+        settings.transform_categoricals = old
+    return dict(observed='all spellings agree', expected='', violates=False)
+
+
 def main():
     req = json.load(sys.stdin)
     kind = req['replay']['kind']
